@@ -51,50 +51,88 @@ func note(op []string, res string) {
 	statMu.Unlock()
 }
 
+// answer: the full answer line of an executed operation.
+func (x *world) answer(res string) string {
+	if res == "bad-op" {
+		return res
+	}
+	return res + " # " + x.render(x.snapshot())
+}
+
+// realOuts: the implementation's unmasked answers of the most recent runs, keyed by the hash of the operation list
+// (the oracles judge these; the lines handed to the differ are masked as described at `impl`).
+var (
+	realMu   sync.Mutex
+	realOuts = map[string][]string{}
+)
+
+func opsKey(ops []string) string { return fnv64(strings.Join(ops, "\n")) }
+
+// impl runs a history on the real code. Every recorded line carries the hash of the answer the implementation gave
+// when the line was recorded (together with the observed amounts the model replays). If the implementation now
+// answers differently — the history was cut by the shrinker and the recorded observations no longer belong to it —
+// the line and all later ones are answered `stale`; the Lean driver does the same when ITS answer does not match the
+// recorded hash. So a shortened history counts as a disagreement only while its observations are still the real
+// ones, and a genuine disagreement (implementation fresh, model different) is always visible.
 func impl(ops []string) []string {
 	outs := make([]string, len(ops))
+	real := make([]string, len(ops))
 	var x *world
+	stale := false
 	for i, line := range ops {
-		op, _ := splitOp(line)
+		op, _, h := splitOpH(line)
 		func() {
 			defer func() {
 				if r := recover(); r != nil {
-					outs[i] = fmt.Sprintf("panic %v", r)
+					real[i] = fmt.Sprintf("panic %v", r)
 				}
 			}()
 			if len(op) == 0 {
-				outs[i] = "bad-op"
+				real[i] = "bad-op"
 				return
 			}
 			if op[0] == "init" {
+				stale = false
 				if len(op) != 3 {
-					outs[i] = "bad-op"
+					real[i] = "bad-op"
 					return
 				}
 				var err error
 				x, err = newWorld(op[1], op[2] == "1")
 				if err != nil {
-					outs[i] = "init-error " + err.Error()
+					real[i] = "init-error " + err.Error()
 					x = nil
 					return
 				}
-				outs[i] = "ok # " + x.render(x.snapshot())
+				real[i] = "ok # " + x.render(x.snapshot())
 				return
 			}
 			if x == nil {
-				outs[i] = "bad-op"
+				real[i] = "bad-op"
 				return
 			}
 			x.hist += strings.Join(op, " ") + "\n"
 			res := x.run(op)
-			if res == "bad-op" {
-				outs[i] = res
-				return
+			if res != "bad-op" {
+				note(op, res)
 			}
-			note(op, res)
-			outs[i] = res + " # " + x.render(x.snapshot())
+			real[i] = x.answer(res)
 		}()
+		if h != "" && fnv64(real[i]) != h {
+			stale = true
+		}
+		if stale {
+			outs[i] = "stale"
+		} else {
+			outs[i] = real[i]
+		}
 	}
+	realMu.Lock()
+	if len(realOuts) > 4096 {
+		realOuts = map[string][]string{}
+	}
+	realOuts[opsKey(ops)] = real
+	realMu.Unlock()
 	return outs
 }
 
@@ -134,7 +172,8 @@ func annotateOps(lines []string) []string {
 			continue
 		}
 		x.hist += strings.Join(op, " ") + "\n"
-		out = append(out, strings.Join(op, " ")+" ; "+x.run(op))
+		res := x.run(op)
+		out = append(out, record(op, res, x.answer(res)))
 	}
 	return out
 }
@@ -170,9 +209,9 @@ func main() {
 		ID: p, Model: model, Gen: gen(p), Impl: impl, Oracle: oracle(p),
 		Cases: func(th bool) int {
 			if th {
-				return 1500
+				return 500
 			}
-			return 120
+			return 36
 		},
 		Fixed: fixed(),
 		Nontrivial: func(ops, outs []string) bool {
